@@ -44,7 +44,7 @@ KillPressure<Base>::rankForKilling(
     const std::vector<OomdContext::ConstCgroupContextRef>& cgroups) {
   return OomdContext::sortDescWithKillPrefs(
       cgroups, [&](const CgroupContext& cgroup_ctx) {
-        int average = 0;
+        float average = 0;
         switch (resource_) {
           case ResourceType::IO:
             if (const auto& pressure = cgroup_ctx.io_pressure()) {
